@@ -6,6 +6,7 @@ If stats.go changes its arithmetic, these proofs no longer close.
 -/
 import DtailModel.Generated.Code
 import DtailModel.Lemmas.Tail
+set_option autoImplicit false
 namespace Dtail.GenStats
 open Dtail Dtail.Go Dtail.Gen.Fs
 
